@@ -123,6 +123,7 @@ type fctx struct {
 	modeNoAssigns bool
 	noRecCheck    bool
 	freshGlobals  []string
+	rfErrsFinal   string // yielderrs after the function's (top-level) range-over-func loop, 0 on paths that never reach it
 }
 
 func (c *fctx) fresh(prefix, sort string) string {
